@@ -93,6 +93,13 @@ def _check_main(run, P):
     run.do(_step, run, P)
     run.do(_events, run, P)
     run.do(_binding, run, P)
+    run.do(_selfcontained, run, P)
+    run.rule("C01.names", "generated identifiers are the same on every look-up within a phase "
+             "function and are not remembered across phase functions (shared with C13.memo)",
+             minimum=5)
+    from . import c13 as _c13
+    _alias(run, "C13.memo", "C01.names", lambda: _c13._memo(run, P))
+    _alias(run, "C13.memo", "C01.names", lambda: _c13._no_consumer_cache(run, P))
     from . import c09 as _c09
     run.do(_c09.resolve_rule, run, P, "C01.binding")
     run.do(_fields, run, P)
@@ -1097,6 +1104,44 @@ def power_rule(run, P, rule, cls_fq):
                      f"precedence {base_prec}, '**' has {consts['PREC_POWER']}",
            why="'**' associates to the right in the target: (a**b)**c printed as "
                "a**b**c evaluates a**(b**c)")
+
+
+def _selfcontained(run, P):
+    """The Python generator copies the source of the built-ins into the body of the
+    generated class (as static methods): inside them only parameters, locals,
+    names imported there and Python's own built-ins mean anything."""
+    import builtins as _b
+    mb = P.module("dagrt.builtins_python")
+    module_names = set(mb.assigns) | {f_.name for f_ in mb.functions.values() if f_.parent is None
+                                      and f_.cls is None} | set(mb.classes)
+    n = 0
+    for f in sorted(mb.functions.values(), key=lambda f_: f_.name):
+        if f.parent is not None or f.cls is not None:
+            continue
+        bound = set(f.params)
+        for x in ast.walk(f.node):
+            if isinstance(x, ast.Name) and isinstance(x.ctx, (ast.Store, ast.Del)):
+                bound.add(x.id)
+            elif isinstance(x, (ast.Import, ast.ImportFrom)):
+                bound |= {(a.asname or a.name).split(".")[0] for a in x.names}
+            elif isinstance(x, (ast.FunctionDef, ast.ClassDef)) and x is not f.node:
+                bound.add(x.name)
+            elif isinstance(x, ast.arg):
+                bound.add(x.arg)
+            elif isinstance(x, ast.ExceptHandler) and x.name:
+                bound.add(x.name)
+        free = sorted({x.id for x in ast.walk(f.node) if isinstance(x, ast.Name)
+                       and isinstance(x.ctx, ast.Load) and x.id not in bound and not hasattr(_b, x.id)})
+        outside = [v for v in free if v in module_names]
+        n += 1
+        run.ob("C01.binding", f, f.node, not free,
+               construct=f"{f.name} uses only its parameters, locals, its own imports and Python "
+                         f"built-ins" + (f" (also: {free})" if free else ""),
+               why="in the generated class the copied function is a static method: a helper or "
+                   "constant defined next to it in builtins_python is not in scope there "
+                   "(NameError) while the interpreter, which calls the module's function, works")
+    if n < 10:
+        raise AnalysisError("builtins_python: fewer than ten functions found")
 
 
 def _setup(run, P):
